@@ -1309,6 +1309,8 @@ def value_eq(m, x, y):
         return i_eq(x, y)
     if hasattr(x, 'model_eq'):
         return x.model_eq(m, y)
+    if isinstance(x, Opaque) and isinstance(y, Opaque):
+        return x == y            # identifiers such as spans: equal iff built from the same ids
     raise EncoderGap('value_eq of %r, %r' % (x, y))
 
 
